@@ -713,6 +713,61 @@ func c05R4(p *core.Program, r *core.Report) {
 	r.Check(qrOK, "R4", "evaluateMessage/quick-replies-truncated", p.Pos(em.Pos()), "appended quick reply derives from TruncateEllipsis(_, MaxQuickReplyLength)", "quick replies are appended without truncation to MaxQuickReplyLength")
 	r.Check(attOK, "R4", "evaluateMessage/attachments-length-checked", p.Pos(em.Pos()), "attachment appended only on the false edge of len(att) > MaxAttachmentLength", "attachments are appended without the MaxAttachmentLength check on the appended value")
 	r.Check(txtOK, "R4", "evaluateMessage/text-via-truncating-evaluate", p.Pos(em.Pos()), "MsgContent.Text derives from Run.EvaluateTemplate", "message text does not come from the truncating EvaluateTemplate")
+	// wherever message content is put together: what is appended to the quick replies of a MsgContent is truncated to
+	// the quick reply limit (not to another limit)
+	qrField := p.FieldOf("flows", "MsgContent", "QuickReplies")
+	if qrField == nil {
+		r.Errorf("flows.MsgContent.QuickReplies not found")
+		return
+	}
+	nQR := 0
+	for _, fn := range p.ModuleFunctions() {
+		core.EachInstr(fn, false, func(_ *ssa.Function, in ssa.Instruction) {
+			st, ok := in.(*ssa.Store)
+			if !ok || core.FieldAddrVar(st.Addr) != qrField {
+				return
+			}
+			// the appends that build the stored slice itself (phis, earlier appends, reslices), not everything it depends on
+			var appends []*ssa.Call
+			seen := map[ssa.Value]bool{}
+			var walk func(v ssa.Value)
+			walk = func(v ssa.Value) {
+				if seen[v] {
+					return
+				}
+				seen[v] = true
+				switch x := v.(type) {
+				case *ssa.Phi:
+					for _, e := range x.Edges {
+						walk(e)
+					}
+				case *ssa.Slice:
+					walk(x.X)
+				case *ssa.ChangeType:
+					walk(x.X)
+				case *ssa.Call:
+					if b, ok := x.Call.Value.(*ssa.Builtin); ok && b.Name() == "append" {
+						appends = append(appends, x)
+						walk(x.Call.Args[0])
+					}
+				}
+			}
+			walk(st.Val)
+			for _, c := range appends {
+				elems := core.VariadicArgs(c.Call.Args[1])
+				for i, e := range elems {
+					if e == nil {
+						continue
+					}
+					nQR++
+					key := fmt.Sprintf("%s/MsgContent.QuickReplies/append#%d", core.FuncName(fn), i)
+					r.Check(truncCallWithLimit(e, "TruncateEllipsis", "", maxQR) != nil, "R4", key, p.Pos(c.Pos()), "the appended quick reply is TruncateEllipsis(_, MaxQuickReplyLength)", "a quick reply is added to message content without being cut to MaxQuickReplyLength (no truncation, or truncation to another limit)")
+				}
+			}
+		})
+	}
+	r.Count("quick_reply_appends", nQR)
+	r.Require("quick_reply_appends", nQR, 1)
 	// EvaluateTemplate wrapper passes true
 	if et := p.Method("flows/runs", "run", "EvaluateTemplate"); et != nil {
 		okW := false
